@@ -116,6 +116,15 @@ func c05Conform(p *vm.Program, d *bc.Decoded, env interface{}, tot *c05Totals) *
 	return nil
 }
 
+var c05FailEnv = map[string]interface{}{"xs": []int{3, 2, 1, 0, 5}}
+var c05FailProg = func() *vm.Program {
+	p, err := expr.Compile("[10, 20, map(xs, {count(xs, {# > 0}) + 6 % #})]", expr.Env(c05FailEnv), expr.Optimize(false))
+	if err != nil {
+		panic(err)
+	}
+	return p
+}()
+
 func init() { checks["C05"] = c05 }
 
 func c05(r *report.Run) {
@@ -166,10 +175,10 @@ func c05(r *report.Run) {
 	}
 	tot := &c05Totals{}
 	modes := []lib.Mode{{Env: "struct", Opt: true}, {Env: "struct", Opt: false}, {Env: "map", Opt: true}, {Env: "noenv", Opt: true}}
-	slices := []*slice{sliceControl(), sliceScalar(), sliceAccess(), sliceLoops(), sliceAlloc(), sliceOptim(), sliceAliases(), sliceElvis()}
+	slices := []*slice{sliceControl(), sliceScalar(), sliceAccess(), sliceLoops(), sliceAlloc(), sliceOptim(), sliceAliases(), sliceElvis(), sliceCalls()}
 	budget := map[string]map[string]int{
-		"quick":    {"control": 5, "scalar": 4, "access": 5, "loops": 6, "alloc": 6, "optim": 4, "aliases": 5, "elvis": 6},
-		"thorough": {"control": 6, "scalar": 5, "access": 6, "loops": 7, "alloc": 7, "optim": 5, "aliases": 6, "elvis": 7},
+		"quick":    {"control": 5, "scalar": 4, "access": 5, "loops": 6, "alloc": 6, "optim": 4, "aliases": 5, "elvis": 6, "calls": 6},
+		"thorough": {"control": 6, "scalar": 5, "access": 6, "loops": 7, "alloc": 7, "optim": 5, "aliases": 6, "elvis": 7, "calls": 7},
 	}
 	for _, sl := range slices {
 		sl.maxN = map[string]int{r.Tier: budget[r.Tier][sl.name]}
@@ -203,6 +212,25 @@ func c05(r *report.Run) {
 					}
 				}
 			}
+			if found == nil {
+				// the end-state clause on a REUSED VM: after a run that failed inside nested closures, every
+				// later successful run on the same VM value still ends with an empty stack and no open scope
+				rv := &vm.VM{}
+				for _, v := range vals {
+					rv.Run(c05FailProg, c05FailEnv)
+					runs++
+					if _, err := rv.Run(p, m.RunEnv(henv.Make(v), names)); err == nil {
+						if n := len(rv.Stack()); n != 0 {
+							found = &bc.Issue{Kind: "reused-vm-run-ends-with-extra-values", Msg: fmt.Sprintf("after a failed run and then a successful run on the same VM, %d values remain on the stack", n)}
+							break
+						}
+						if rv.Scope() != nil {
+							found = &bc.Issue{Kind: "reused-vm-run-ends-with-open-scope", Msg: "after a failed run and then a successful run on the same VM a loop scope is still open"}
+							break
+						}
+					}
+				}
+			}
 			if found != nil {
 				kind := found.Kind
 				w := sl.g.Shrink(e, func(c *gen.Expr) bool {
@@ -216,6 +244,16 @@ func c05(r *report.Run) {
 						if x.Kind == kind {
 							return true
 						}
+					}
+					if strings.HasPrefix(kind, "reused-vm") {
+						rv := &vm.VM{}
+						rv.Run(c05FailProg, c05FailEnv)
+						for _, v := range henv.Valuations(gen.Vars(c)) {
+							if _, err := rv.Run(p2, m.RunEnv(henv.Make(v), gen.Names(c))); err == nil && (len(rv.Stack()) != 0 || rv.Scope() != nil) {
+								return true
+							}
+						}
+						return false
 					}
 					if len(is) == 0 && strings.HasPrefix(kind, "conformance") || strings.HasPrefix(kind, "run-ends") {
 						for _, v := range henv.Valuations(gen.Vars(c)) {
